@@ -34,6 +34,8 @@ type World struct {
 	writerSet map[*ssa.Function]bool
 	effects   map[*ssa.Function]map[string]bool
 	thr  *threads   // lazily built
+	strKeep edgeKeep      // evalStr: phis of strFn are resolved under this edge filter when set
+	strFn   *ssa.Function
 }
 
 // Load type-checks /repo (non-test files, default build configuration), builds SSA for the
